@@ -1,9 +1,11 @@
 """C08 — MPR penetration result (structural clauses)."""
+from . import scopes
 from ..core.report import DOMAIN_D
 from ..rules import mink, unitdir, loops
 
 
 def run(idx, rep, tier):
+    rep.set_scope(scopes.scope(idx, "C08"))
     rep.explanation = (
         "R-UNITDIR (sign/unit lattice, engine signs): on every return path the depth is built from norm / point-to-triangle "
         "distance / 0.0 and the direction from norm_vector(.) or np.zeros(3); the zero vector is returned for touching "
